@@ -1,6 +1,11 @@
-(* C09 — URL normalisation is canonical: sanity examples of the executable model (RIO.Pct, RIO.Url),
-   evaluated by the kernel.  The general statements come later; nothing here is a theorem of the property. *)
-Require Import RIO.Base RIO.Pct RIO.Url RIO.C09Run.
+(* C09 — URL normalisation is canonical.
+   Part 1: sanity examples of the executable model (RIO.Pct, RIO.Url), evaluated by the kernel.
+   Part 2: the pinned theorems; every statement is about the model for ALL configurations (the six flags and any
+           marketing list) and ALL byte strings satisfying the stated boolean side conditions; proofs are in
+           RIO.PctProofs / RIO.UrlProofs.  The correspondence run (tools/check.py C09) ties the model to the crate.
+   Part 3: witnesses: non-vacuity of the side conditions, and, for each exclusion, a URL of the excluded class on
+           which the conclusion fails (the known findings kf_* of corpus/C09). *)
+Require Import RIO.Base RIO.Pct RIO.Url RIO.C09Run RIO.PctProofs RIO.UrlProofs.
 Open Scope N_scope.
 
 (* default utm set *)
@@ -68,3 +73,236 @@ Example target_examples :
   /\ target_with_skipped [47;116;63;120] (Some [97;61;49]) = [47;116;63;120;38;97;61;49]
   /\ target_with_skipped [47;116] None = [47;116].
 Proof. repeat split; vm_compute; reflexivity. Qed.
+
+(* ================================================================================================== *)
+(* Part 2: theorems *)
+
+(* T1. Rebuilding a request is idempotent (unconditionally), and rebuilding the request made by
+   Request::from_config changes neither the request nor its matching string. *)
+Theorem C09_rebuild_idempotent : forall (cfg : config) (r : request),
+  rebuild_with_config cfg (rebuild_with_config cfg r) = rebuild_with_config cfg r.
+Proof. exact rebuild_idempotent. Qed.
+
+Theorem C09_rebuild_keeps_request : forall (cfg : config) (u : str) (host : option str),
+  rebuild_with_config cfg (request_from_config cfg u host) = request_from_config cfg u host
+  /\ request_path_and_query (rebuild_with_config cfg (request_from_config cfg u host)) = request_matching_string cfg u.
+Proof. intros cfg u host. split; [apply rebuild_from_config|apply rebuild_keeps_matching_string]. Qed.
+
+(* T2. The six encode sets, defined separately as in the three source files: the three URL-type sets are equal,
+   the two QUERY sets with '+' are equal and are the URL set plus '+', SIMPLE is a subset. *)
+Theorem C09_encode_sets_agree : forall b : N,
+  rule_URL_ENCODE_SET b = query_URL_ENCODE_SET b
+  /\ request_QUERY_ENCODE_SET b = query_URL_ENCODE_SET b
+  /\ rule_QUERY_ENCODE_SET b = query_QUERY_ENCODE_SET b
+  /\ query_QUERY_ENCODE_SET b = (query_URL_ENCODE_SET b || N.eqb b c_plus)
+  /\ (rule_SIMPLE_ENCODE_SET b = true -> query_URL_ENCODE_SET b = true).
+Proof. exact encode_sets_agree. Qed.
+
+(* Encoding with a set and then with a larger set that contains neither '%' nor a hexadecimal digit is encoding
+   once with the larger set (bytes are < 256). *)
+Theorem C09_encode_absorb : forall (s s' : ascii_set) (x : str),
+  (forall b, should_percent_encode s b = true -> should_percent_encode s' b = true) ->
+  keeps_escapes s' -> bytes_ok x = true ->
+  percent_encode s' (percent_encode s x) = percent_encode s' x.
+Proof. exact percent_encode_absorb. Qed.
+
+(* ... in particular the two passes of the rule side (request.rs's set, then rule.rs's QUERY set) are the single
+   pass of the request side (query.rs's QUERY set) *)
+Theorem C09_encode_absorb_sets : forall x : str, bytes_ok x = true ->
+  percent_encode rule_QUERY_ENCODE_SET (percent_encode request_QUERY_ENCODE_SET x) = percent_encode query_QUERY_ENCODE_SET x.
+Proof. exact encode_absorb_sets. Qed.
+
+(* T3. A rule whose source is the literal path and query of a URL matches a request for that URL.
+   url_ok cfg u = shape_ok u (starts with '/', bytes < 256, no back-tick in the path, sanitised length <= 65534)
+                 && no bare "=" entry in front of other entries of the collected map
+                 && no key of the ignored marketing set in the collected map (known finding kf_rule_with_marketing_key). *)
+Theorem C09_literal_matches : forall (cfg : config) (u : str) (host : option str),
+  url_ok cfg u = true ->
+  static_rule_matches (rule_path_and_query cfg (url_path u) (url_query u))
+                      (rebuild_with_config cfg (request_from_config cfg u host)) = true.
+Proof. exact literal_matches. Qed.
+
+(* T4. Order of the parameters: if the parsed parameters of u' are those of u permuted so that the occurrences of each
+   decoded key keep their order (same_by_key), the normalised request is the same (known finding
+   kf_perm_repeated_key: without the stability condition it is not). *)
+Theorem C09_param_order : forall (cfg : config) (u u' : str),
+  shape_ok u = true -> shape_ok u' = true ->
+  url_path u' = url_path u -> same_by_key (url_params u) (url_params u') = true ->
+  request_matching_string cfg u' = request_matching_string cfg u
+  /\ pq_path_and_query (from_config cfg u') = pq_path_and_query (from_config cfg u)
+  /\ pq_skipped_query_params (from_config cfg u') = pq_skipped_query_params (from_config cfg u).
+Proof. exact param_order. Qed.
+
+(* T5. Marketing parameters: the matching string only depends on the parameters that are not ignored
+   (kept cfg l = l without the parameters whose decoded key is in the marketing set when ignoring is configured),
+   up to a key-stable permutation; hence the literal rule of u matches u plus any marketing parameters. *)
+Theorem C09_marketing_ignored : forall (cfg : config) (u u' : str),
+  shape_ok u = true -> shape_ok u' = true ->
+  url_path u' = url_path u -> same_by_key (kept cfg (url_params u)) (kept cfg (url_params u')) = true ->
+  request_matching_string cfg u' = request_matching_string cfg u.
+Proof. exact marketing_ignored. Qed.
+
+Theorem C09_rule_matches_equivalent : forall (cfg : config) (u u' : str) (host : option str),
+  url_ok cfg u = true -> shape_ok u' = true ->
+  url_path u' = url_path u -> same_by_key (kept cfg (url_params u)) (kept cfg (url_params u')) = true ->
+  static_rule_matches (rule_path_and_query cfg (url_path u) (url_query u))
+                      (rebuild_with_config cfg (request_from_config cfg u' host)) = true.
+Proof. exact rule_matches_equivalent. Qed.
+
+(* skipped_query_params = nf_skipped cfg u (the ignored entries of the collected map, ascending keys, written
+   key or key=value with query.rs's QUERY set, joined by '&') iff passing and ignoring are configured and it is
+   not empty; the target receives it after '?' or, when it already has a '?', after '&'. *)
+Theorem C09_skipped_iff_pass : forall (cfg : config) (u : str), shape_ok u = true ->
+  pq_skipped_query_params (from_config cfg u)
+  = if pass_marketing_query_params_to_target cfg && ignore_marketing_query_params cfg && negb (is_nil (nf_skipped cfg u))
+    then Some (nf_skipped cfg u) else None.
+Proof. exact skipped_iff_pass. Qed.
+
+Theorem C09_target_with_skipped : forall (target : str) (skipped : option str),
+  target_with_skipped target skipped
+  = match skipped with
+    | None => target
+    | Some sk => target ++ (if memN c_qmark target then c_amp else c_qmark) :: sk
+    end.
+Proof. exact target_with_skipped_spec. Qed.
+
+(* T6. ASCII case: with ignore_path_and_query_case, swapping the case of every ASCII letter of the URL text (hex
+   digits of escapes included) does not change the matching string, provided case_ok: the decoded keys of the URL
+   and of its swapped form compare pairwise the same way (both sides sort BEFORE lower-casing: known finding
+   kf_case_sort_order) and are in the ignored marketing set together or not at all (kf_marketing_key_case). *)
+Theorem C09_case : forall (cfg : config) (u : str),
+  ignore_path_and_query_case cfg = true -> shape_ok u = true -> case_ok cfg u = true ->
+  request_matching_string cfg (swap_url u) = request_matching_string cfg u.
+Proof. exact case_insensitive. Qed.
+
+Theorem C09_case_rule : forall (cfg : config) (u : str) (host : option str),
+  ignore_path_and_query_case cfg = true -> url_ok cfg u = true -> case_ok cfg u = true ->
+  static_rule_matches (rule_path_and_query cfg (url_path u) (url_query u))
+                      (rebuild_with_config cfg (request_from_config cfg (swap_url u) host)) = true.
+Proof. exact rule_matches_case_swapped. Qed.
+
+(* T7. A URL whose sanitised path or collected decoded parameters differ (differs: up to ASCII case under the case
+   flag, ignored marketing parameters removed) is NOT matched, when neither map has encoded delimiters
+   (clean_map: decoded keys without % & =, decoded values without % &, no bare "=" entry). *)
+Theorem C09_differs_no_match : forall (cfg : config) (u u' : str) (host : option str),
+  url_ok cfg u = true -> shape_ok u' = true ->
+  clean_map (kept cfg (url_map u)) = true -> clean_map (kept cfg (url_map u')) = true ->
+  differs cfg u u' = true ->
+  static_rule_matches (rule_path_and_query cfg (url_path u) (url_query u))
+                      (rebuild_with_config cfg (request_from_config cfg u' host)) = false.
+Proof. exact differs_no_match. Qed.
+
+(* ================================================================================================== *)
+(* Part 3: witnesses *)
+
+Definition cfg_case : config := mk_cfg false false true false false false utm.      (* ignore case only *)
+Definition cfg_mk : config := mk_cfg false false false true true false utm.         (* ignore + pass marketing *)
+
+(* "/a b?z=1&a=é&=v" is in the domain of every theorem, under cfg_fold (all three flags) *)
+Definition u_dom : str := u_ab ++ [38;61;118].
+Example url_ok_nonvacuous :
+  url_ok cfg_fold u_dom = true /\ case_ok cfg_fold u_dom = true /\ clean_map (kept cfg_fold (url_map u_dom)) = true
+  /\ url_map u_dom = [([], [118]); ([97], [195;169]); ([122], [49])].
+Proof. repeat split; vm_compute; reflexivity. Qed.
+
+(* "/a b?utm_source=x&a=é&=v&z=1": marketing parameter added and parameters permuted *)
+Definition u_dom_mk : str := p_ab ++ [63;117;116;109;95;115;111;117;114;99;101;61;120;38;97;61;195;169;38;61;118;38;122;61;49].
+Example marketing_nonvacuous :
+  shape_ok u_dom_mk = true /\ url_path u_dom_mk = url_path u_dom
+  /\ same_by_key (kept cfg_fold (url_params u_dom)) (kept cfg_fold (url_params u_dom_mk)) = true
+  /\ pq_skipped_query_params (from_config cfg_fold u_dom_mk) = Some [117;116;109;95;115;111;117;114;99;101;61;120].
+Proof. repeat split; vm_compute; reflexivity. Qed.
+
+(* "/a b?z=1&a=é7&=v" differs from u_dom *)
+Definition u_dom_diff : str := u_ab ++ [55;38;61;118].
+Example differs_nonvacuous :
+  shape_ok u_dom_diff = true /\ clean_map (kept cfg_fold (url_map u_dom_diff)) = true /\ differs cfg_fold u_dom u_dom_diff = true.
+Proof. repeat split; vm_compute; reflexivity. Qed.
+
+(* kf_rule_with_marketing_key: "/a?utm_source=x&b=1" fails only the marketing clause of url_ok under cfg_mk, and its
+   literal rule does not match it *)
+Definition u_rule_mk : str := [47;97;63;117;116;109;95;115;111;117;114;99;101;61;120;38;98;61;49].
+Lemma C09_literal_refuted_marketing_key : exists (cfg : config) (u : str),
+  shape_ok u = true /\ no_leading_bare (url_map u) = true /\ url_ok cfg u = false
+  /\ static_rule_matches (rule_path_and_query cfg (url_path u) (url_query u))
+                         (rebuild_with_config cfg (request_from_config cfg u None)) = false.
+Proof. exists cfg_mk, u_rule_mk. repeat split; vm_compute; reflexivity. Qed.
+
+(* the bare "=" : "/a?=&b=1" *)
+Lemma C09_literal_refuted_bare_eq : exists (cfg : config) (u : str),
+  shape_ok u = true /\ no_leading_bare (url_map u) = false
+  /\ static_rule_matches (rule_path_and_query cfg (url_path u) (url_query u))
+                         (rebuild_with_config cfg (request_from_config cfg u None)) = false.
+Proof. exists cfg_plain, [47;97;63;61;38;98;61;49]. repeat split; vm_compute; reflexivity. Qed.
+
+(* the back-tick in the path: "/a`b?b=1&a=2" *)
+Lemma C09_literal_refuted_backtick : exists (cfg : config) (u : str),
+  shape_ok u = false
+  /\ static_rule_matches (rule_path_and_query cfg (url_path u) (url_query u))
+                         (rebuild_with_config cfg (request_from_config cfg u None)) = false.
+Proof. exists cfg_plain, [47;97;96;98;63;98;61;49;38;97;61;50]. repeat split; vm_compute; reflexivity. Qed.
+
+(* kf_perm_repeated_key: "/p?a=1&a=2" and "/p?a=2&a=1" have the same path and permuted parameters, not key-stably *)
+Definition u_rep : str := [47;112;63;97;61;49;38;97;61;50].
+Definition u_rep' : str := [47;112;63;97;61;50;38;97;61;49].
+Lemma C09_param_order_refuted_repeated_key : exists (cfg : config) (u u' : str),
+  url_ok cfg u = true /\ shape_ok u' = true /\ url_path u' = url_path u
+  /\ Permutation (url_params u) (url_params u') /\ same_by_key (url_params u) (url_params u') = false
+  /\ static_rule_matches (rule_path_and_query cfg (url_path u) (url_query u))
+                         (rebuild_with_config cfg (request_from_config cfg u' None)) = false.
+Proof.
+  exists cfg_plain, u_rep, u_rep'. repeat split; try (vm_compute; reflexivity).
+  vm_compute. apply perm_swap.
+Qed.
+
+(* kf_case_sort_order: "/p?B=1&a=2" under ignore_path_and_query_case: the swapped URL "/p?b=1&A=2" is not matched *)
+Definition u_sort : str := [47;112;63;66;61;49;38;97;61;50].
+Lemma C09_case_refuted_sort_order : exists (cfg : config) (u : str),
+  ignore_path_and_query_case cfg = true /\ url_ok cfg u = true /\ case_ok cfg u = false
+  /\ swap_url u = [47;80;63;98;61;49;38;65;61;50]
+  /\ static_rule_matches (rule_path_and_query cfg (url_path u) (url_query u))
+                         (rebuild_with_config cfg (request_from_config cfg (swap_url u) None)) = false.
+Proof. exists cfg_case, u_sort. repeat split; vm_compute; reflexivity. Qed.
+
+(* kf_marketing_key_case: under cfg_fold "/p?utm_source=x" is matched by the rule of "/p", its swapped form
+   "/P?UTM_SOURCE=X" is not *)
+Definition u_mkc : str := [47;112;63;117;116;109;95;115;111;117;114;99;101;61;120].
+Lemma C09_case_refuted_marketing_key : exists (cfg : config) (u : str),
+  ignore_path_and_query_case cfg = true /\ shape_ok u = true /\ case_ok cfg u = false
+  /\ static_rule_matches (rule_path_and_query cfg [47;112] None) (rebuild_with_config cfg (request_from_config cfg u None)) = true
+  /\ static_rule_matches (rule_path_and_query cfg [47;112] None) (rebuild_with_config cfg (request_from_config cfg (swap_url u) None)) = false.
+Proof. exists cfg_fold, u_mkc. repeat split; vm_compute; reflexivity. Qed.
+
+(* encoded delimiters: "/p?a=1%26b" and "/p?a=1&b" differ as collected maps and are matched: clean_map is needed *)
+Lemma C09_differs_refuted_encoded_amp : exists (cfg : config) (u u' : str),
+  url_ok cfg u = true /\ shape_ok u' = true /\ differs cfg u u' = true /\ clean_map (kept cfg (url_map u)) = false
+  /\ static_rule_matches (rule_path_and_query cfg (url_path u) (url_query u))
+                         (rebuild_with_config cfg (request_from_config cfg u' None)) = true.
+Proof. exists cfg_plain, [47;112;63;97;61;49;37;50;54;98], [47;112;63;97;61;49;38;98]. repeat split; vm_compute; reflexivity. Qed.
+
+(* "%" : "/p?a=%2520" and "/p?a=%20" *)
+Lemma C09_differs_refuted_encoded_percent : exists (cfg : config) (u u' : str),
+  url_ok cfg u = true /\ shape_ok u' = true /\ differs cfg u u' = true /\ clean_map (kept cfg (url_map u)) = false
+  /\ static_rule_matches (rule_path_and_query cfg (url_path u) (url_query u))
+                         (rebuild_with_config cfg (request_from_config cfg u' None)) = true.
+Proof. exists cfg_plain, [47;112;63;97;61;37;50;53;50;48], [47;112;63;97;61;37;50;48]. repeat split; vm_compute; reflexivity. Qed.
+
+Print Assumptions C09_rebuild_idempotent.
+Print Assumptions C09_rebuild_keeps_request.
+Print Assumptions C09_encode_sets_agree.
+Print Assumptions C09_encode_absorb.
+Print Assumptions C09_encode_absorb_sets.
+Print Assumptions C09_literal_matches.
+Print Assumptions C09_param_order.
+Print Assumptions C09_marketing_ignored.
+Print Assumptions C09_rule_matches_equivalent.
+Print Assumptions C09_skipped_iff_pass.
+Print Assumptions C09_target_with_skipped.
+Print Assumptions C09_case.
+Print Assumptions C09_case_rule.
+Print Assumptions C09_differs_no_match.
+Print Assumptions C09_literal_refuted_marketing_key.
+Print Assumptions C09_param_order_refuted_repeated_key.
+Print Assumptions C09_case_refuted_sort_order.
+Print Assumptions C09_case_refuted_marketing_key.
+Print Assumptions C09_differs_refuted_encoded_amp.
